@@ -204,9 +204,12 @@ Definition handle_cancel (st : cstate) (id : Z) : cstate * list effect :=
        | Some m => (set_in (mx_put id (mex_cancel m) (cs_in st)) st, [Cancel id])
        end.
 
-(* ---- connection.go: handlePingReq (the payload of ping frames is never read) ---- *)
+(* ---- connection.go: handlePingReq (the payload of ping frames is never read).  Only a Closed
+   connection refuses a ping; a connection that is draining after Close (StartClose /
+   InboundClosed, accepted calls in flight) answers it like an Active one.  The state test is
+   tied to the source: Proofs/PeerFxP.v ping_state_test_generated. ---- *)
 Definition handle_ping_req (st : cstate) (id : Z) : cstate * list effect :=
-  if negb (cs_state st =? c_connectionActive) then protocol_error st id      (* errConnNotActive *)
+  if cs_state st =? c_connectionClosed then protocol_error st id             (* errConnNotActive *)
   else if cs_sendroom st >? 0 then (set_room (cs_sendroom st - 1) st, [SendFrame c_messageTypePingRes id 0])
   else connection_error st.                                                  (* ErrSendBufferFull: "send pong" *)
 
@@ -248,7 +251,9 @@ Fixpoint read_frames (fuel : nat) (st : cstate) (stream : list Z) : cstate * lis
    the types whose body the reader goroutine does not look at (continuations, call res, ping,
    cancel) well-formedness is a matter of the header alone, and of a call req the reader checks
    what precedes the argument chunks; bodies and chunks are checked by the goroutine that
-   consumes the exchange (Proofs/PeerInputP.v: parsed_fragment_no_panic). ---- *)
+   consumes the exchange (Proofs/PeerInputP.v: parsed_fragment_no_panic).  A ping req is legal
+   on every connection that is not Closed: a connection draining after Close keeps answering
+   its peer's health check. ---- *)
 Definition has (id : Z) (m : exmap) : bool := match mx_lookup id m with Some _ => true | None => false end.
 
 Definition frame_legal (st : cstate) (mt id : Z) (payload : list Z) : bool :=
@@ -257,7 +262,7 @@ Definition frame_legal (st : cstate) (mt id : Z) (payload : list Z) : bool :=
     && (fst (parse_inbound_fragment payload) =? 0)
   else if mt =? c_messageTypeCallReqContinue then has id (cs_in st)
   else if (mt =? c_messageTypeCallRes) || (mt =? c_messageTypeCallResContinue) || (mt =? c_messageTypePingRes) then has id (cs_out st)
-  else if mt =? c_messageTypePingReq then cs_state st =? c_connectionActive
+  else if mt =? c_messageTypePingReq then negb (cs_state st =? c_connectionClosed)
   else if mt =? c_messageTypeError then
     let '(m, r) := r_error (rb payload) in negb (rerr r) && negb (em_code m =? c_ErrCodeProtocol) && has id (cs_out st)
   else if mt =? c_messageTypeCancel then cs_cancel st && has id (cs_in st)
